@@ -9,6 +9,8 @@ Loops over opaque iterables (Stream / SymSeq / SymList prefix) are CUT: the loop
 code after the loop is executed from a havocked state.  The trace of a path is a list of Events.
 """
 import ast
+import os
+import time
 import z3
 
 from .values import *  # noqa
@@ -231,6 +233,10 @@ def smt_valid(hyps, goal):
     return smt.check_valid(hyps, goal, timeout_ms=5000).status == 'unsat'
 
 
+class Budget(Unsupported):
+    """the whole exploration (not one path) is given up: time budget exhausted"""
+
+
 class LoopSpec:
     """contract-side configuration of a cut loop: invariant (callable(interp, env) -> z3 Bool or list)"""
 
@@ -254,6 +260,8 @@ class Engine:
     def __init__(self, max_paths=400):
         self.max_paths = max_paths
         self.unsupported = []
+        self.budget_s = int(os.environ.get('PYVC_EXPLORE_BUDGET_S', '120'))
+        self.deadline = time.time() + self.budget_s
 
     def explore(self, thunk, loops=None, explore_abandon=False, inline=None):
         """run thunk(interp) along every feasible path; returns list[Path]"""
@@ -283,6 +291,14 @@ class Engine:
                 except _Return as r:
                     p.ret = r.v
                     p.end = 'return'
+                except Budget:
+                    raise
+                except Unsupported as e:
+                    # outside the modelled subset ON THIS PATH: the path is dropped (what it checked before that point
+                    # stands), the other paths are still explored, and the function is reported undecided
+                    p.end = 'unsupported'
+                    p.unsupported = str(e)
+                    self.unsupported.append(str(e))
             finally:
                 pass
             p.trail = it.trail
@@ -650,6 +666,8 @@ class Interp:
             self.exec(s, env)
 
     def exec(self, node, env):
+        if time.time() > self.engine.deadline:
+            raise Budget('exploration exceeded its time budget of %d s' % self.engine.budget_s)
         m = getattr(self, 'exec_' + node.__class__.__name__, None)
         if m is None:
             raise Unsupported('statement %s' % node.__class__.__name__)
